@@ -111,6 +111,11 @@ def run(prop, tier, only=None):
     if not sel and not vobs:
         raise Undecided(f"no obligations for {prop}")
 
+    # stale replay files of the obligations about to be re-decided are removed
+    for oid in [o.id for o in sel] + [o["id"] for o in vobs]:
+        f = VERIF / "replays" / f"{oid}.json"
+        if f.exists():
+            f.unlink()
     results = []  # per obligation-harness dicts
     undecided = []
     violations = []
